@@ -141,6 +141,9 @@ def make_cfg(rng, name, table, w=None, werror=None, stl_mode=None):
             'debug': rng.random() < 0.6}
 
 
+PAIRS = [('n_ns', 'n_ns2'), ('s_ns_a', 's_ns_b'), ('s_const_k', 's_rep_k'), ('s_const_k', 's_label_k')]
+
+
 def pick_ok(rng):
     names = sorted(corpus.OK)
     stl = [n for n in names if corpus.OK[n][0]]
@@ -237,6 +240,17 @@ def gen(rng, index, tier):
             cfg['files'] = [f for f in cfg['files'] if f[1] != 'stl'] if not corpus.OK[name][0] else cfg['files']
     else:
         cfg = make_cfg(rng, rng.choice(okn), corpus.OK)
+    if rng.random() < 0.25:
+        # a colliding PAIR: two programs that reuse a name (constant vs rep iterator / label, a namespaced macro with
+        # the same full name and arity but other parameter names): the first somewhere earlier, the second as the probe
+        a, b = rng.choice(PAIRS)
+        if rng.random() < 0.5:
+            a, b = b, a
+        first = make_cfg(rng, a, corpus.OK)
+        cfg = make_cfg(rng, b, corpus.OK, w=first['w'], werror=first['werror'])
+        cfg['files'] = [f for f in first['files'] if f[1] == 'stl'] + [f for f in cfg['files'] if f[1] != 'stl']
+        cfg['debug'] = True
+        ops.insert(rng.randrange(len(ops) + 1), {'kind': 'assemble', 'cfg': first, 'depth': None})
     if any(o.get('cfg', {}).get('program') == 'n_big_labels' for o in ops):
         cfg['debug'] = True
     ops.append({'kind': 'assemble', 'cfg': cfg, 'depth': rng.choice([None, None, 900, 60]), 'probe': True})
